@@ -18,7 +18,7 @@ import z3
 from . import smt
 from .smt import Ctx, fresh_int, fresh_bool, fresh_arr, iv, is_conc_int
 from . import values as V
-from .values import (NONE, VBool, VConst, VDict, VExc, VInt, VList, VNone, VObj, VOpt, VStr, VSymCache, VTuple,
+from .values import (NONE, VBool, VConst, VDict, VExc, VInt, VList, VNone, VObj, VOpt, VStr, VStream, VSymCache, VTuple,
                      Unsupported, lit)
 
 REPO = os.environ.get("PYVC_REPO", "/repo")
@@ -112,6 +112,8 @@ def _clone(v, memo):
             return memo[id(v)]
         if isinstance(v, VList):
             n = VList([], v.fresh)
+            if getattr(v, "bytes", False):
+                n.bytes = True
             memo[id(v)] = n
             n.items = [_clone(x, memo) for x in v.items]
         elif isinstance(v, VDict):
@@ -431,6 +433,8 @@ class Executor:
                 if len(a.items) != len(b.items) or a.fresh != b.fresh:
                     raise Unmergeable()
                 r = VList([], a.fresh)
+                if getattr(a, "bytes", False):
+                    r.bytes = True
                 hm[k] = (r, a, b)
                 r.items = [self.merge_value(c, x, y, ctx) for x, y in zip(a.items, b.items)]
             else:
@@ -826,7 +830,22 @@ class Executor:
                 yield V.concat(s3.ctx, strs), s3
 
     def fmt_opaque(self, st, v, p):
-        # formatted with !r or a format spec: only used in error messages
+        spec = None
+        if p.format_spec is not None and p.conversion == -1 and len(p.format_spec.values) == 1 \
+                and isinstance(p.format_spec.values[0], ast.Constant):
+            spec = p.format_spec.values[0].value
+        if spec == "02X" and isinstance(v, VInt):
+            # library contract of format(int, "02X") for 0 <= v < 256: two upper-case hex digits
+            r = V.fresh_str(st.ctx, "hex2")
+            t = v.t
+            def hx(d):
+                return z3.If(d < 10, d + 48, d + 55)
+            st.ctx.add(z3.Implies(z3.And(t >= 0, t < 256),
+                                  z3.And(r.len() == 2, r.a[0] == hx(t / 16), r.a[1] == hx(t % 16))))
+            two = VStr(r.a, 0, 2)
+            self.oblige(st, "format-02X-of-a-byte", "safety", z3.And(t >= 0, t < 256), p, {"note": "two-digit contract"})
+            return two
+        # formatted with !r or another format spec: only used in error messages
         return V.fresh_str(st.ctx, "fmt")
 
     def to_str(self, st, v):
@@ -979,6 +998,8 @@ class Executor:
         if isinstance(l, VInt) and isinstance(r, VInt):
             a, b = l.t, r.t
             return {ast.Lt: a < b, ast.LtE: a <= b, ast.Gt: a > b, ast.GtE: a >= b}[type(op)]
+        if isinstance(l, VBool) and isinstance(r, VBool) and isinstance(op, ast.LtE):
+            return z3.Implies(l.t, r.t)          # bool <= bool is implication
         if isinstance(l, VStr) and isinstance(r, VStr):
             # character comparisons  '0' <= v <= '9'
             if self.is_char(l) and self.is_char(r):
@@ -1076,6 +1097,10 @@ class Executor:
 
     def contains(self, st, container, item):
         ctx = st.ctx
+        if isinstance(container, VStr) and container.kind == "bytes" and isinstance(item, VInt):
+            if container.conc is None:
+                raise Unsupported("int in symbolic bytes")
+            return V.in_set(item.t, list(container.conc))
         if isinstance(container, VStr):
             if not isinstance(item, VStr):
                 raise Unsupported("'in <str>' with non-str")
@@ -1222,7 +1247,12 @@ class Executor:
             if (lo is not None and cl is None) or (hi is not None and ch is None):
                 raise Unsupported("symbolic slice of list")
             items = base.items[cl:ch]
-            return VTuple(items) if isinstance(base, VTuple) else VList(items, fresh=True)
+            if isinstance(base, VTuple):
+                return VTuple(items)
+            nl = VList(items, fresh=True)
+            if getattr(base, "bytes", False):
+                nl.bytes = True
+            return nl
         raise Unsupported(f"slice of {base!r}")
 
     def index(self, st, base, idx, node):
@@ -1271,6 +1301,9 @@ class Executor:
                         if kind == "raise":
                             yield Raised(VExc(KeyError)), s2
                 return
+        if isinstance(base, VConst) and isinstance(base.obj, dict) and isinstance(idx, VStr) and idx.conc is not None:
+            yield self.wrap(base.obj[idx.conc]), st
+            return
         raise Unsupported(f"subscript of {base!r}")
 
     def e_Attribute(self, e, st):
@@ -1346,7 +1379,7 @@ class Executor:
             if m is not None:
                 return m
             raise Unsupported(f"attribute {name} of {base.cls}")
-        if isinstance(base, (VStr, VList, VDict, VTuple, VSymCache)):
+        if isinstance(base, (VStr, VList, VDict, VTuple, VSymCache, VStream)):
             return BoundMethod(base, name)
         if isinstance(base, VConst):
             try:
@@ -1398,6 +1431,18 @@ class Executor:
                 fields = dict(zip(obj.__slots__, args))
                 fields.update(kwargs)
                 yield VObj(obj.__name__, fields, fresh=True), st
+                return
+            import re as _re
+            if isinstance(getattr(obj, "__self__", None), _re.Pattern) and obj.__name__ in ("match", "fullmatch"):
+                from . import lib
+                yield lib.regex_classes(self, st, obj.__self__, args[0], obj.__name__ == "fullmatch"), st
+                return
+            if obj is bytearray:
+                if args:
+                    raise Unsupported("bytearray(x)")
+                bl = VList([], fresh=True)
+                bl.bytes = True
+                yield bl, st
                 return
             if getattr(obj, "__name__", None) == "get" and isinstance(getattr(obj, "__self__", None), dict):
                 yield self.const_dict_get(st, obj.__self__, args[0], args[1] if len(args) > 1 else NONE), st
@@ -1591,8 +1636,15 @@ class Executor:
         finally:
             self.cur_func, self.cur_file = saved
 
-    def bind_params(self, f, args):
-        env = self.bind_args(f.node, list(args), {}, f.self_obj)
+    def bind_params(self, f, args, names=None):
+        a = f.node.args
+        if names is not None and a.kwonlyargs:
+            # keyword-only parameters: bind the contract's parameters by name
+            kw = dict(zip(names, args))
+            pos = [kw.pop(x.arg) for x in a.posonlyargs + a.args if x.arg in kw]
+            env = self.bind_args(f.node, pos, kw, f.self_obj)
+        else:
+            env = self.bind_args(f.node, list(args), {}, f.self_obj)
         for k, v in list(env.items()):
             if v is None:
                 names = [x.arg for x in f.node.args.args]
@@ -1872,6 +1924,81 @@ class Executor:
                 yield "next", None, s2
             else:
                 yield flow, val, s2
+
+    def s_While(self, s, st):
+        """while <cond>: cut by the invariant of the sidecar contract (entry / preservation /
+        exit).  Names assigned in the body are havocked; byte lists named in the contract are
+        havocked per admissible length; output streams become VStream (emissions are checked
+        against the specification step, DESIGN.md 4.2)."""
+        spec = self.loop_spec(s)
+        if spec is None:
+            raise Unsupported(f"while loop without invariant at {self.where(s)}")
+        import itertools
+        for name in spec.streams:
+            cur = st.env.get(name)
+            if not (isinstance(cur, VList) and not cur.items):
+                raise Unsupported(f"stream {name} is not an empty buffer at the loop head")
+            st.env[name] = VStream(name, spec)
+        for g, init in spec.ghost.items():
+            st.ghost[g] = self.eval1(ast.parse(init, mode="eval").body, st)[0]
+        self.oblige(st, "loop-invariant-entry", "inv-entry", spec.invariant(self, st), s)
+        names = (self.assigned_names(s.body) | set(spec.lists)) - set(spec.streams)
+        ranges = [range(lo, hi + 1) for (lo, hi) in spec.lists.values()]
+        lnames = list(spec.lists)
+        base = st.fork()
+
+        def havocked(src, lens):
+            h = src.fork()
+            for nm in names:
+                if nm in lnames:
+                    L = lens[lnames.index(nm)]
+                    items = []
+                    for i in range(L):
+                        v = fresh_int(f"{nm}{i}")
+                        h.ctx.add(z3.And(v >= 0, v <= 255))
+                        items.append(VInt(v))
+                    h.env[nm] = VList(items, fresh=True)
+                    h.env[nm].bytes = True
+                elif nm in h.env:
+                    h.env[nm] = self.havoc(h, nm, h.env[nm])
+            for g in spec.ghost:
+                h.ghost[g] = VInt(fresh_int("G" + g))
+            return h
+        for lens in itertools.product(*ranges):
+            self.sol.push()
+            try:
+                body_st = havocked(base, lens)
+                body_st.assume(spec.invariant(self, body_st))
+                conds = list(self.eval_cond(s.test, body_st))
+                if len(conds) != 1 or isinstance(conds[0][0], Raised):
+                    raise Unsupported("loop condition forks or raises")
+                body_st.assume(conds[0][0])
+                if not body_st.feasible():
+                    continue
+                for flow, val, s2 in self.exec_block(s.body, 0, body_st):
+                    if flow in ("next", "continue"):
+                        self.oblige(s2, "loop-invariant-preserved", "inv-step", spec.invariant(self, s2), s)
+                    elif flow == "break":
+                        yield "next", None, s2
+                    else:
+                        yield flow, val, s2
+            finally:
+                self.sol.pop()
+        for lens in itertools.product(*ranges):
+            self.sol.push()
+            try:
+                ex_st = havocked(base, lens)
+                ex_st.assume(spec.invariant(self, ex_st))
+                conds = list(self.eval_cond(s.test, ex_st))
+                ex_st.assume(z3.Not(conds[0][0]))
+                if not ex_st.feasible():
+                    continue
+                if spec.exit is not None:
+                    self.oblige(ex_st, "loop-exit:simulation-complete", "inv-exit",
+                                self.truth(ex_st, spec._eval(self, ex_st, spec.exit)), s)
+                yield from self.exec_block(s.orelse, 0, ex_st)
+            finally:
+                self.sol.pop()
 
     def s_For(self, s, st):
         for it, s2 in self.eval(s.iter, st):
